@@ -7,6 +7,9 @@ def T(qcases, tcases, qbudget=240, tbudget=1500, workers=16):
             "thorough": dict(cases=tcases, budget_s=tbudget, workers=workers)}
 
 PROPS = {
+    "C14": dict(sources=["props/C14.cpp"], jls=True, mrb_size=1 << 22, tiers=T(300, 5000),
+                assumptions=["the file header written by jls_wr_open is an append (empty file); its rewrite at close is the only other write at offset 0",
+                             "a head-table rewrite is the 128-byte payload followed by its 8-byte footer (pad + CRC)"]),
     "C05": dict(sources=["props/C05.cpp"], jls=True, mrb_size=1 << 22, tiers=T(250, 4000),
                 assumptions=["decoder follows format.h/README; where they are silent (SOURCE_DEF/SIGNAL_DEF serialisation, string terminator {0,0x1f}, annotation payload header) it follows the de-facto layout and reports deviations as observations only",
                              "structural predicates are asserted for chunks reachable from the initial lists, head tables and index entries; byte-level predicates for every chunk (orphans left by repair are counted)",
@@ -47,6 +50,10 @@ PROPS = {
 HOOK_COMMITS = ["6203c3e4032b5e35344eee56bc8020982a6abdeb"]
 
 MANIFEST_TEXT = {
+    "C14": dict(
+        technique="history invariant over the complete backend write log of generated writer programs (in-memory VFS), evaluated against a shadow file and chunk map",
+        level_text="Every logged backend write/truncate of every generated program (sync and threaded writer) is classified online: append, 32-byte header rewrite (only bytes 0..15 and 28..31 may differ, CRC valid), head-table rewrite (each changed entry 0 -> offset of an existing chunk of that track/level, followed by a matching footer), or the file header. Anything else - in particular any rewrite of payload bytes, a truncate, or a hole - is a violation with the offending operation index.",
+        level_note="Trusted: the VFS log (every I/O call of backend_posix.c goes through it) and the chunk-map parser (own CRC). Covers the writer only; repair writes are C19."),
     "C05": dict(
         technique="differential testing against an independent decoder written from the specification (explicit byte offsets, own CRC), plus model comparison; generated programs via four production paths",
         level_text="Every generated file (sync writer, threaded writer, jls_copy output, repaired crash image from an exact write-log replay) is walked by a second decoder that shares no code or headers with the library: header/payload CRCs, alignment, zero pad, header length, prev-length chain, link symmetry and list membership, head tables, index trees (kind/signal/level/timestamp of every target), INDEX immediately followed by SUMMARY. Its content (definitions, samples, summaries at every level, annotations, UTC, user data) must equal the model and what the library reader returns.",
